@@ -6,7 +6,7 @@ Encoder ops (no output): `u N`, `n N`, `f HEX16`, `text HEX`, `bytes HEX`,
 `textr BB COUNT`, `bytesr BB COUNT`, `arr N`, `map N`, `tag N`, `bool 0|1`, `null`, `undef`,
 `indef_bytes`, `indef_text`, `indef_arr`, `indef_map`, `brk`, `reset`.
 `enc` prints the encoded bytes (`W enc`) and the buffer capacity (`W cap`).
-Decoder: `load` (decoder over the encoder's output; result lines are `P`), `dec HEX` (decoder over
+Decoder: `load` (decoder over the encoder's output; result lines are `P`), `dec HEX` / `dec NULL` (decoder over
 raw bytes; every line is `W`), `decode_all` (= `load` + `all`), `all`, `peek`, `pop KIND`,
 `consume`, `skip`, `rem`.  Errors are always `W` lines. -/
 namespace Driver.CborD
@@ -65,6 +65,8 @@ def itemOf? : List String → Option Item
   | ["u", v] => (u64? v).map .uint
   | ["n", v] => (u64? v).map .negint
   | ["f", h] => if h.length = 16 then (parseHexNat? h).map (fun n => .float (UInt64.ofNat n)) else none
+  | ["text", "NULL"] => some (.text [])       -- the empty string as a {NULL, 0} cursor
+  | ["bytes", "NULL"] => some (.bytes [])
   | ["text", h] => (parseHex? h).map .text
   | ["bytes", h] => (parseHex? h).map .bytes
   | ["textr", b, c] => match parseHexNat? b, c.toNat? with
@@ -145,6 +147,7 @@ def step (s : St) (t : List String) : St × List String :=
       ({ s with enc := e }, [])
     | ["enc"] => (s, [s!"W enc {hexOf s.enc.buf}", s!"W cap {s.enc.cap}"])
     | ["load"] => ({ s with dec := some (Decoder.new s.enc.buf), raw := false }, [])
+    | ["dec", "NULL"] => ({ s with dec := some (Decoder.new []), raw := true }, [])
     | ["dec", h] =>
       (match parseHex? h with
        | some bs => ({ s with dec := some (Decoder.new bs), raw := true }, [])
